@@ -44,7 +44,7 @@ func returnFacts(p *Prog, fn *ssa.Function, mode string) []Fact {
 			return false
 		}
 		al, ok := addrRoot(st.Addr).(*ssa.Alloc)
-		return ok && al.Heap && al.Parent() == fn
+		return ok && al.Parent() == fn
 	}
 	if eff := p.TransEffects(fn, freshStore, nil); len(eff.W) > 0 {
 		return nil
@@ -109,6 +109,28 @@ func returnFacts(p *Prog, fn *ssa.Function, mode string) []Fact {
 			ev := returnedValue(ret, len(ret.Results)-1)
 			if c, isC := ev.(*ssa.Const); isC && c.Value == nil {
 				scenarios = append(scenarios, append(g.FactsAtBlock(ret.Block()), resultFieldFacts(g, ret)...))
+			} else if ph, isPhi := ev.(*ssa.Phi); isPhi && ph.Block() == ret.Block() {
+				// one return of an error variable set on several ways (`switch { case bad: err = ...}`):
+				// the ways on which it is nil, each with the conditions it was taken under
+				for i, e := range ph.Edges {
+					if definitelyNonNilError(e) {
+						continue
+					}
+					if c, isC := e.(*ssa.Const); !isC || c.Value != nil {
+						scenarios = append(scenarios, nil)
+						continue
+					}
+					pred := ph.Block().Preds[i]
+					base := append([]Fact{}, g.FactsAtBlock(pred)...)
+					if iff, ok := pred.Instrs[len(pred.Instrs)-1].(*ssa.If); ok {
+						if pred.Succs[0] == ph.Block() && pred.Succs[1] != ph.Block() {
+							base = append(base, g.condFacts(iff.Cond, true, "")...)
+						} else if pred.Succs[1] == ph.Block() && pred.Succs[0] != ph.Block() {
+							base = append(base, g.condFacts(iff.Cond, false, "")...)
+						}
+					}
+					scenarios = append(scenarios, append(base, resultFieldFactsBase(g, ret, base)...))
+				}
 			} else if _, isC := ev.(*ssa.Const); !isC {
 				// an error value that is not syntactically nil or non-nil: could be nil with nothing learnt
 				if !definitelyNonNilError(ev) {
@@ -330,9 +352,14 @@ func definitelyNonNilError(v ssa.Value) bool {
 // for every integer field stored exactly once, on the way to this return, result.f == x, and every
 // fact about x at the return is one about result.f.  The result is named ‹$retK›.
 func resultFieldFacts(g *GuardCtx, ret *ssa.Return) []Fact {
+	return resultFieldFactsBase(g, ret, g.FactsAtBlock(ret.Block()))
+}
+
+// resultFieldFactsBase: as resultFieldFacts, restating the facts of base (what is known on the
+// way to the return that is being summarised).
+func resultFieldFactsBase(g *GuardCtx, ret *ssa.Return, base []Fact) []Fact {
 	var out []Fact
 	fn := ret.Parent()
-	base := g.FactsAtBlock(ret.Block())
 	for k := range ret.Results {
 		rvK := returnedValue(ret, k)
 		al, ok := rvK.(*ssa.Alloc)
@@ -369,6 +396,11 @@ func resultFieldFacts(g *GuardCtx, ret *ssa.Return) []Fact {
 			case *ssa.FieldAddr, *ssa.Return:
 			case *ssa.UnOp:
 				if !byValue {
+					escapes = true
+				}
+			case *ssa.Store:
+				// `return req, err` with named results copies the variable onto itself
+				if ld, isLd := x.Val.(*ssa.UnOp); !(x.Addr == ssa.Value(al) && isLd && ld.X == ssa.Value(al)) {
 					escapes = true
 				}
 			default:
